@@ -110,7 +110,10 @@ def oracle_step(bf: T.Any, af: T.Any, cmd: T.Dict[str, T.Any], status: str, meta
         exc = status[4:]
         ordering = any(isinstance(n, R.mp().ComparisonNode) and n.ctype in ('<', '<=', '>', '>=')
                        for st in bst for n, _p in R.walk(st))
-        if exc == 'TypeError' and R.string_plus_list(bst):
+        if exc == 'IndexError' and R.exotic_separators(''.join(bfiles.values())):
+            viol.append(('splice:line-separator-other-than-LF-before-edit',
+                         f'{kind}: offsets computed with splitlines() point past the text (IndexError)'))
+        elif exc == 'TypeError' and R.string_plus_list(bst):
             viol.append(('extra_files_add:plain-string-plus-list',
                          f'{kind}: the build file holds <string> + [list] written by an earlier extra_files_add; analysis raises TypeError'))
         elif exc == 'MesonBugException' and ordering and not cap_applied:
